@@ -586,7 +586,13 @@ func Gen(prop, tier string, seed, run uint64) Plan {
 			// while tagging jobs for it are in flight
 			c := p.Converters[r.IntN(len(p.Converters))]
 			rd := []string{fmt.Sprintf("data.%s:\"vconv\"", c), fmt.Sprintf("cdata.%s:\"%s\"", c, strings.ToUpper(netsim.Markers[r.IntN(len(netsim.Markers))])), fmt.Sprintf("-data.%s:\"vconv\"", c), fmt.Sprintf("sdata.%s:\"[A-Z]\" sport:80,443,8080", c)}[r.IntN(4)]
-			pre = append(pre, Op{C: CMut, K: "AddTag", Name: []string{"tag/a", "tag/b"}[r.IntN(2)], Color: "#123456", Def: rd})
+			rdName := []string{"tag/a", "tag/b"}[r.IntN(2)]
+			pre = append(pre, Op{C: CMut, K: "AddTag", Name: rdName, Color: "#123456", Def: rd})
+			if r.IntN(2) == 0 {
+				// and a tag that references the reader: it has to follow when converter
+				// completions make the reader pending
+				pre = append(pre, Op{C: CMut, K: "AddTag", Name: "tag/c", Color: "#123456", Def: refName(rdName) + []string{"", " protocol:tcp", " cbytes:1:"}[r.IntN(3)]})
+			}
 		}
 		at := r.IntN(1 + len(mutOps)/3)
 		mutOps = append(mutOps[:at], append(pre, mutOps[at:]...)...)
